@@ -771,6 +771,35 @@ def shared_value_expr(n, shared_locals, callbacks=()) -> bool:
     return False
 
 
+def _elements_of_shared(target, it, shared_locals, callbacks):
+    """[(loop variable, description)] for the targets of `for target in it` that are bound to elements of a shared container"""
+    def names(t):
+        return [t.id] if isinstance(t, ast.Name) else []
+
+    if isinstance(it, ast.Call) and isinstance(it.func, ast.Attribute) and not it.args and it.func.attr in ("items", "values") \
+            and shared_value_expr(it.func.value, shared_locals, callbacks):
+        what = f"an element of {src(it.func.value)[:50]}"
+        if it.func.attr == "values":
+            return [(n_, what) for n_ in names(target)]
+        if isinstance(target, (ast.Tuple, ast.List)) and len(target.elts) == 2:
+            return [(n_, what) for n_ in names(target.elts[1])]
+        return []
+    if isinstance(it, ast.Call) and isinstance(it.func, ast.Name) and it.func.id in ("reversed", "sorted", "list", "tuple", "iter") and len(it.args) == 1:
+        return _elements_of_shared(target, it.args[0], shared_locals, callbacks)
+    if isinstance(it, ast.Call) and isinstance(it.func, ast.Name) and it.func.id == "enumerate" and it.args \
+            and isinstance(target, (ast.Tuple, ast.List)) and len(target.elts) == 2:
+        return _elements_of_shared(target.elts[1], it.args[0], shared_locals, callbacks)
+    if isinstance(it, ast.Call) and isinstance(it.func, ast.Name) and it.func.id == "zip" and isinstance(target, (ast.Tuple, ast.List)) \
+            and len(target.elts) == len(it.args):
+        out = []
+        for t_, a_ in zip(target.elts, it.args):
+            out += _elements_of_shared(t_, a_, shared_locals, callbacks)
+        return out
+    if isinstance(it, (ast.Attribute, ast.Name, ast.Subscript)) and shared_value_expr(it, shared_locals, callbacks):
+        return [(n_, f"an element of {src(it)[:50]}") for n_ in names(target)]
+    return []
+
+
 def inplace_on_shared(mod: Mod):
     """in-place operations on locals that alias shared values: [(qualname, node, description)]"""
     out = []
@@ -778,9 +807,15 @@ def inplace_on_shared(mod: Mod):
         params = {a.arg for a in f.args.posonlyargs + f.args.args + f.args.kwonlyargs} - {"self", "cls"}
         shared = {}
         slots = {}
-        order = [st for st in ast.walk(f) if isinstance(st, (ast.Assign, ast.AugAssign, ast.Expr))]
+        order = [st for st in ast.walk(f) if isinstance(st, (ast.Assign, ast.AugAssign, ast.Expr, ast.For))]
         order.sort(key=lambda st: (st.lineno, st.col_offset))
         for st in order:
+            if isinstance(st, ast.For):
+                # the loop variable is, in turn, each element held by a shared container: an in-place operation on it changes the
+                # owner's element (dict.items()/values(), the container itself, enumerate/zip/reversed/sorted of those)
+                for name, why in _elements_of_shared(st.target, st.iter, set(shared), params):
+                    shared[name] = why
+                continue
             if isinstance(st, ast.Assign) and len(st.targets) == 1 and isinstance(st.targets[0], ast.Name):
                 tgt = st.targets[0].id
                 if shared_value_expr(st.value, set(shared), params) and not isinstance(st.value, ast.Name):
